@@ -170,7 +170,7 @@ SPECS = {
     ),
     "C07": dict(
         level="proof",
-        props_deps=["Proofs/ArithInt.v", "Proofs/FloatKernels.v", "Proofs/FloatToInt.v", "Proofs/FloatCompare.v", "Gen/Arith_gen.v"],
+        props_deps=["Proofs/ArithInt.v", "Proofs/FloatKernels.v", "Proofs/FloatToInt.v", "Proofs/FloatCompare.v", "Proofs/FloatIntPart.v", "Gen/Arith_gen.v"],
         model_deps=["Model/EvalCheck.v"],
         trusted=COMMON_TRUSTED + [
             "Flocq 4 IEEE754.Binary/Bits as the meaning of float64 + - * / comparisons, float64(int64), math.Floor/Ceil/Trunc/Round",
